@@ -261,12 +261,13 @@ func (self *Analyzer) identExpression(node pAst.IdentExpression) ast.AnalyzedIde
 
 		return ast.AnalyzedIdentExpression{
 			Ident: node.Ident,
+			// Like the type of a variable, the type of a function used as a value is located at its use.
 			ResultType: ast.NewFunctionType(
 				ast.NewNormalFunctionTypeParamKind(params),
 				fn.ParamsSpan,
 				fn.ReturnType,
 				fn.FnType.(normalFunction).Ident.Span(),
-			),
+			).SetSpan(node.Span()),
 			IsGlobal:   false,
 			IsFunction: false,
 		}
